@@ -132,6 +132,12 @@ func (f *formatter) WriteDescription(s string) *formatter {
 		return f
 	}
 
+	if !blockStringSafe(s) {
+		// a block string would not read back as s: write it as a quoted string
+		f.WriteString((&ast.Value{Kind: ast.StringValue, Raw: s}).String()).WriteNewline()
+		return f
+	}
+
 	f.WriteString(`"""`)
 	ss := strings.Split(s, "\n")
 	f.WriteNewline()
@@ -142,6 +148,32 @@ func (f *formatter) WriteDescription(s string) *formatter {
 	f.WriteString(`"""`).WriteNewline()
 
 	return f
+}
+
+// blockStringSafe reports whether s, written on indented lines of their own between
+// triple quotes, is read back unchanged: it must not contain a triple quote, a carriage
+// return or a control character, must not begin or end with a blank line, and one of its
+// lines must start without white space (so that only the indentation is stripped).
+func blockStringSafe(s string) bool {
+	if strings.Contains(s, `"""`) {
+		return false
+	}
+	for i := 0; i < len(s); i++ {
+		if c := s[i]; c < 0x20 && c != '\t' && c != '\n' {
+			return false
+		}
+	}
+	lines := strings.Split(s, "\n")
+	blank := func(l string) bool { return strings.Trim(l, " \t") == "" }
+	if blank(lines[0]) || blank(lines[len(lines)-1]) {
+		return false
+	}
+	for _, l := range lines {
+		if !blank(l) && l[0] != ' ' && l[0] != '\t' {
+			return true
+		}
+	}
+	return false
 }
 
 func (f *formatter) IncrementIndent() {
